@@ -270,7 +270,9 @@ func C06(c *core.Ctx) {
 				}
 			}
 			nMut++
-			fr := core.MustFollowDeep(fn, core.After(in), func(x ssa.Instruction) bool {
+			// the mutation may sit in a worker split off the exported operation: the
+			// obligation then continues after the worker's call site
+			fr := core.MustFollowDeep(core.RootOf(fn), core.After(in), func(x ssa.Instruction) bool {
 				cc, ok := core.IsCall(x, core.CalleeID{Pkg: "fw/table", Recv: "RibEntry", Name: "updateNexthopsEnc"})
 				if !ok {
 					return false
